@@ -121,6 +121,11 @@ def check(tier, seed, replay=None):
         ix, g, dd = core.gen_cases(SPEC_DIR, "IndexGen.tla", "IndexGen.cfg", "indexgen", workers=2)
         meta["IndexGen"] = {"cases": len(ix), "gen_states": dd, "gen_transitions": g}
         cases += [{"id": f"index{i}", "text": c["text"], "kind": "index"} for i, c in enumerate(ix)]
+        # the type-perturbed programs of C19 (one or two positions filled with a value of every kind)
+        tg, g, dd = core.gen_cases(os.path.join(core.SPEC, "types"), "TypeGen.tla", "TypeGen.cfg", "typegen", workers=4)
+        meta["TypeGen"] = {"cases": len(tg), "gen_states": dd, "gen_transitions": g}
+        k = 1 if tier == "thorough" else max(1, len(tg) // 1500)
+        cases += [{"id": f"typed{i}", "text": c["text"], "kind": "typed"} for i, c in list(enumerate(tg))[seed % k::k]]
         # mutation histories from the TLA+ machine
         base = os.path.join(d, "base.ndjson")
         core.write_ndjson(base, [tokens_of(p) for p in progs[:40]])
